@@ -1,11 +1,150 @@
 /-
-  Avt.Spec.C16 — oracle of property C16 (decidable predicates evaluated on implementation states;
-  the same definitions the theorems in Avt/Props/C16.lean are stated with).
+  Avt.Spec.C16 — oracle of property C16 "the alternate screen never disturbs the primary screen"
+  (decidable predicates evaluated on implementation states; the same definitions the theorems in
+  Avt/Props/C16.lean are stated with).
+
+  An *excursion* is: a state `m` on the primary screen (the mark), `CSI ? 47/1047/1049 h`, any
+  input that neither leaves the alternate screen nor is RIS (possibly with `resize` calls in
+  between), `CSI ? 47/1047/1049 l`.  The script generator announces the phases:
+
+    X C16MARK k                    the state of instance k is the mark
+    X C16ENTER k <mode>            the entering call has just returned
+    X C16DURING k                  after every call of the excursion
+    X C16AFTER k <enter> <leave>   the leaving call has just returned
+
+  When a `TEXT k` query precedes a directive, the strings `Vt::text()` itself returned are compared
+  (`Inst.lastText`); otherwise `text` is computed from the implementation's state.
+
+  What may and may not differ, decided from the code (terminal.rs `switch_to_*_buffer`, `reflow`,
+  `gc`):
+  * entering moves the primary `Buffer` value into `other_buffer` unchanged, and `gc()` at the end of
+    a call only touches the active buffer, so during the whole excursion the parked primary is the
+    marked buffer exactly — also across resizes (only the active buffer is reflowed).  The oracle
+    compares everything except `trim_needed` (not observable through the API).
+  * the primary's saved context is parked in `alternate_saved_ctx`; `?1049h` while already on the
+    alternate screen saves into `saved_ctx` (the alternate's own), so the parked context is constant.
+  * leaving runs `Buffer::resize(cols, rows)` on the parked buffer: with the geometry of the mark
+    this is the identity on the lines (it sets `trim_needed`), and the `gc()` that ends the leaving
+    call then trims the scrollback exactly when it is longer than the hard limit — impossible when
+    the mark follows a `feed_str`/`resize` call, possible after per-char `feed()` calls; `trimmedSb`
+    is that (deterministic) result and the lines handed out are the ones cut.
+  * with a resize in between only the logical text is preserved (`textRel`); the sharp statement
+    about the cursor is C10's.
 -/
 import Avt.Spec.Base
 
 namespace Avt.Spec.C16
 open Avt Avt.Spec
+
+/-! ### vocabulary -/
+
+/-- a screen of `rows × cols` blank cells carrying `pen`, no row wrapped -/
+def blankScreen (cols rows : Nat) (pen : Pen) : List Line := List.replicate rows (Line.blank cols pen)
+
+/-- the cursor context `?1049h` saves on entry: column clamped into the screen -/
+def entryCtx (t : Terminal) : SavedCtx :=
+  { cursorCol := min t.cursor.col (t.cols - 1), cursorRow := t.cursor.row, pen := t.pen,
+    originMode := t.originMode, autoWrapMode := t.autoWrapMode }
+
+/-- the primary's saved context while it is parked, for an excursion entered with `mode` from `m` -/
+def parkedCtx (m : Terminal) (mode1049 : Bool) : SavedCtx := if mode1049 then entryCtx m else m.savedCtx
+
+/-- equality of buffers up to the `trim_needed` flag: lines, scrollback, geometry, limit -/
+def sameBuffer (a b : Buffer) : Bool :=
+  a.view == b.view && a.sb == b.sb && a.cols == b.cols && a.rows == b.rows && a.limit == b.limit
+
+/-- the scrollback `gc()` leaves once `trim_needed` is set -/
+def trimmedSb (b : Buffer) : List Line :=
+  match b.limit with
+  | some l => if b.sb.length > l.hard then b.sb.drop (b.sb.length - l.soft) else b.sb
+  | none => b.sb
+
+def isPrefixOf (a b : List Nat) : Bool := a == b.take a.length
+
+def dropTrailingEmpty (ls : List (List Nat)) : List (List Nat) :=
+  (ls.reverse.dropWhile List.isEmpty).reverse
+
+/-- all lines but the last are equal, the last one of `new` is a prefix of its counterpart -/
+def prefixLines : List (List Nat) → List (List Nat) → Bool
+  | [], _ => true
+  | _ :: _, [] => false
+  | [n], o :: _ => isPrefixOf n o
+  | n :: ns, o :: os => n == o && prefixLines ns os
+
+/-- logical text after a resized excursion: never altered, at most cut short at the end
+    (trailing empty lines, which a taller screen adds, do not count) -/
+def textRel (old new : List (List Nat)) : Bool := prefixLines (dropTrailingEmpty new) old
+
+/-- the new alternate screen: blank with the pen current at entry, unwrapped, no scrollback -/
+def freshAlternate (m s : Terminal) : Bool :=
+  s.activeBufferType == .alternate && s.cols == m.cols && s.rows == m.rows
+    && s.buffer.view == blankScreen m.cols m.rows m.pen && s.buffer.sb == []
+
+/-- frame condition while the alternate screen is showing, size unchanged since the mark
+    (`m` carries the parked context in `savedCtx`, see `checkDirective`) -/
+def primaryParked (m s : Terminal) : Bool :=
+  sameBuffer s.otherBuffer m.buffer && s.alternateSavedCtx == m.savedCtx
+
+/-- back on the primary, same size: view identical, scrollback identical up to `gc()` -/
+def primaryRestored (m s : Terminal) : Bool :=
+  s.activeBufferType == .primary && s.buffer.view == m.buffer.view && s.buffer.sb == trimmedSb m.buffer
+    && s.buffer.cols == m.buffer.cols && s.buffer.rows == m.buffer.rows && s.buffer.limit == m.buffer.limit
+
+/-- `?1049l`: cursor, pen, origin mode and auto-wrap mode come back from the parked context -/
+def ctxRestored (c : SavedCtx) (s : Terminal) : Bool :=
+  s.cursor.col == c.cursorCol && s.cursor.row == c.cursorRow && s.pen == c.pen
+    && s.originMode == c.originMode && s.autoWrapMode == c.autoWrapMode && !s.pendingWrap
+
+/-- did the scrollback of the marked primary survive `gc()` untrimmed? -/
+def untrimmed (b : Buffer) : Bool := trimmedSb b == b.sb
+
+/-- DEC private modes 47 / 1047 (`altScreenBuffer`) and 1049 (`saveCursorAltScreenBuffer`) -/
+def isAltScreenMode : DecMode → Bool
+  | .altScreenBuffer | .saveCursorAltScreenBuffer => true
+  | _ => false
+
+/-- the functions an excursion excludes: leaving the alternate screen (`DECRST 47/1047/1049`), RIS -/
+def endsExcursion : Function → Bool
+  | .decrst ms => ms.any isAltScreenMode
+  | .ris => true
+  | _ => false
+
+/-- the functions the parser emits for the input `s` from parser state `p` -/
+def emitted : Parser → List Nat → List Function
+  | _, [] => []
+  | p, c :: cs =>
+    match p.feed c with
+    | none => []
+    | some (p', none) => emitted p' cs
+    | some (p', some f) => f :: emitted p' cs
+
+/-- `Buffer.resize` to the geometry the buffer already has only sets `trim_needed`
+    (proved as `Avt.Buffer.resize_same` in Avt/Lemmas/ResizeSame.lean) -/
+def ResizeSame : Prop :=
+  ∀ (b : Buffer) (cur : Nat × Nat), BInv b = true → cur.2 < b.rows →
+    b.resize b.cols b.rows cur = some ({ b with trimNeeded := true }, cur)
+
+/-! ### the oracle -/
+
+/-- `Buffer.textGo` with the pending logical line kept as a reversed list of row texts, so that a
+    logical line of `n` rows costs `O(n)` instead of `O(n²)` (sessions with `REP 65535` produce
+    logical lines of 65535 cells).  `Avt.Lemmas.C16Text`: `fastTextGo ls [] = Buffer.textGo ls []`. -/
+def fastTextGo : List Line → List (List Nat) → List (List Nat)
+  | [], acc =>
+    let cur := acc.reverse.flatten
+    if cur.isEmpty then [] else [trimEnd cur]
+  | l :: ls, acc =>
+    let acc := l.text :: acc
+    if !l.wrapped then trimEnd acc.reverse.flatten :: fastTextGo ls [] else fastTextGo ls acc
+
+/-- `Terminal.text`, computed with `fastTextGo` -/
+def textOf (t : Terminal) : List (List Nat) := fastTextGo t.primaryBuffer.lines []
+
+/-- the text the implementation reports: `Vt::text()` itself when the script queried it just before
+    the directive (`TEXT k`), otherwise `text` of the implementation's state -/
+def obsText (i : Inst) : List (List Nat) := i.lastText.getD (textOf i.st.terminal)
+
+def sameSize (a b : Terminal) : Bool := a.cols == b.cols && a.rows == b.rows
 
 def checkStep (_ev : StepEv) : List Verdict := []
 
@@ -13,7 +152,75 @@ def checkNew (_cols _rows : Nat) (_lim : Option Nat) (_st : Vt) : List Verdict :
 
 def checkParserStep (_prev : Parser) (_c : Nat) (_next : Parser) (_fn : String) : List Verdict := []
 
-def checkDirective (_name : String) (_args : List String) (_inst : String → Option Inst)
-    (_tcOut : Nat → List (List Nat)) : List Verdict × List (Nat × Inst) := ([], [])
+def checkDirective (name : String) (args : List String) (inst : String → Option Inst)
+    (_tcOut : Nat → List (List Nat)) : List Verdict × List (Nat × Inst) :=
+  match args with
+  | [] => ([], [])
+  | ks :: rest =>
+    match ks.toNat?, inst ks with
+    | some k, some i =>
+      if i.dead then ([], []) else
+      let s := i.st.terminal
+      -- give up on this excursion (precondition of the property no longer applies)
+      let abandon : List Verdict × List (Nat × Inst) :=
+        ([.pass false], [(k, { i with mark := none, lastText := none })])
+      match name, rest with
+      | "C16MARK", [] =>
+        -- start counting from here: RIS seen, unconsumed `Changes`, lines handed out
+        ([], [(k, { i with mark := some i.st, markResized := false, sawRis := false, sawDrop := false,
+                           drained := [], lastText := none })])
+      | "C16ENTER", [modeS] =>
+        match i.mark, modeS.toNat? with
+        | some mv, some mode =>
+          let m := mv.terminal
+          if m.activeBufferType != .primary || i.sawRis then abandon else
+          let vs :=
+            [ check "C16.enter-blank-screen-with-current-pen" true (freshAlternate m s),
+              check "C16.enter-primary-parked-unchanged" true (sameBuffer s.otherBuffer m.buffer),
+              check "C16.enter-saved-context" (mode == 1049) (s.alternateSavedCtx == parkedCtx m (mode == 1049)),
+              check "C16.enter-text-unchanged" true (obsText i == textOf m) ]
+          -- from now on the mark carries the context the primary was parked with
+          let mv' : Vt := { mv with terminal := { m with savedCtx := parkedCtx m (mode == 1049) } }
+          (vs, [(k, { i with mark := some mv', lastText := none })])
+        | _, _ => ([], [])
+      | "C16DURING", _ =>
+        match i.mark with
+        | some mv =>
+          let m := mv.terminal
+          if s.activeBufferType != .alternate || i.sawRis then abandon else
+          let resized := i.markResized || !sameSize s m
+          let vs :=
+            if resized then
+              [ check "C16.during-resized-text-not-altered" true (textRel (textOf m) (obsText i)) ]
+            else
+              [ check "C16.during-primary-parked-unchanged" true (primaryParked m s),
+                check "C16.during-text-unchanged" true (obsText i == textOf m) ]
+          (vs, [(k, { i with markResized := resized, lastText := none })])
+        | none => ([.pass false], [])
+      | "C16AFTER", [enterS, leaveS] =>
+        match i.mark, enterS.toNat?, leaveS.toNat? with
+        | some mv, some enter, some leave =>
+          let m := mv.terminal
+          if i.sawRis then abandon else
+          let resized := i.markResized || !sameSize s m
+          let vs :=
+            if resized then
+              [ check "C16.after-resized-on-primary" true (s.activeBufferType == .primary),
+                check "C16.after-resized-invariants" true (Inv i.st && geomOK i.st),
+                check "C16.after-resized-text-not-altered" (!i.sawDrop)
+                  (i.sawDrop || s.activeBufferType != .primary
+                    || textRel (textOf m) (fastTextGo (i.drained ++ s.buffer.lines) [])) ]
+            else
+              [ check "C16.after-primary-identical" true (primaryRestored m s),
+                check "C16.after-scrollback-cut-is-handed-out" (!i.sawDrop)
+                  (i.sawDrop || i.drained ++ s.buffer.sb == m.buffer.sb),
+                check "C16.after-text-unchanged" (untrimmed m.buffer)
+                  (!untrimmed m.buffer || obsText i == textOf m),
+                check "C16.after-1049-context-restored" (leave == 1049 && enter == 1049)
+                  (leave != 1049 || ctxRestored m.savedCtx s) ]
+          (vs, [(k, { i with mark := none, markResized := false, lastText := none })])
+        | _, _, _ => ([], [])
+      | _, _ => ([], [])
+    | _, _ => ([], [])
 
 end Avt.Spec.C16
